@@ -465,3 +465,44 @@ Example C10_bit_level_diff_rejects :
   fst (fst (check (mkBTrace t b0 [[]]))) = 1 /\
   fst (fst (check (mkBTrace t b0 [[(0, Some (100, [(0, 536870912)]))]]))) = 1.
 Proof. vm_compute. repeat split. Qed.
+
+(* hardening round 4 (K1 special addresses, K2 bucket edges, K5 equal parties, K6 swap-and-pop): the monitor rejects
+   - a token transferred / batch-minted to an address whose balance does not move (address 3 stands for the NFT
+     contract's own address: the refinement theorems above quantify over ALL addresses, none is special);
+   - an owner list that keeps a stale entry past its end, lists a token twice, or a global list that keeps the
+     burned token after a swap-and-pop of the FIRST entry of three;
+   - an authorised transfer_from with spender = from = to that fails; a self-transfer by a non-owner that succeeds;
+   - a transfer of the first id of the second bucket (3200) that changes the owner of the last id of the first
+     bucket (3199) (sampled observation);
+   and accepts the correct answers in each situation. *)
+Definition e3 : list (call * outcome * obs) :=
+  [(MintSeq 0, Ok (Some 0), obe 1 [Some 0;None;None;None] [1] 1 [Some 0;None;None] [[Some 0;None;None]]);
+   (MintSeq 0, Ok (Some 1), obe 2 [Some 0;Some 0;None;None;None] [2] 2 [Some 0;Some 1;None;None] [[Some 0;Some 1;None;None]]);
+   (MintSeq 0, Ok (Some 2), obe 3 [Some 0;Some 0;Some 0;None;None;None] [3] 3 [Some 0;Some 1;Some 2;None;None] [[Some 0;Some 1;Some 2;None;None]])].
+Definition sob (nx : N) (own : list (N * option addr)) (bal : list N) : obs := mkObs nx own (idx bal) [] [] 0 [] [].
+Example C10_monitor_rejects_round4_traces :
+  mon FBase true
+    [(MintSeq 0, Ok (Some 0), ob 1 [Some 0; None; None; None] [1; 0; 0; 0]);
+     (Transfer [0] 0 3 0, Ok None, ob 1 [Some 3; None; None; None] [0; 0; 0; 0])] = 2 /\
+  mon FBase true
+    [(MintSeq 0, Ok (Some 0), ob 1 [Some 0; None; None; None] [1; 0; 0; 0]);
+     (Transfer [0] 0 3 0, Ok None, ob 1 [Some 3; None; None; None] [0; 0; 0; 1])] = 0 /\
+  mon FCons true [(BatchMint 3 2, Ok (Some 1), ob 2 [Some 3; Some 3; None; None; None] [0; 0; 0; 0])] = 1 /\
+  mon FCons true [(BatchMint 3 2, Ok (Some 1), ob 2 [Some 3; Some 3; None; None; None] [0; 0; 0; 2])] = 0 /\
+  mon FEnum true (e3 ++ [(Burn [0] 0 0, Ok None, obe 3 [None;Some 0;Some 0;None;None;None] [2] 2 [Some 2;Some 1;None;None] [[Some 2;Some 1;Some 2;None]])]) = 4 /\
+  mon FEnum true (e3 ++ [(Burn [0] 0 0, Ok None, obe 3 [None;Some 0;Some 0;None;None;None] [2] 2 [Some 2;Some 1;None;None] [[Some 2;Some 2;None;None]])]) = 4 /\
+  mon FEnum true (e3 ++ [(Burn [0] 0 0, Ok None, obe 3 [None;Some 0;Some 0;None;None;None] [2] 2 [Some 0;Some 1;None;None] [[Some 2;Some 1;None;None]])]) = 4 /\
+  mon FEnum true (e3 ++ [(Burn [0] 0 0, Ok None, obe 3 [None;Some 0;Some 0;None;None;None] [2] 2 [Some 2;Some 1;None;None] [[Some 2;Some 1;None;None]])]) = 0 /\
+  mon FBase true
+    [(MintSeq 0, Ok (Some 0), ob 1 [Some 0; None; None; None] [1; 0]);
+     (TransferFrom [0] 0 0 0 0, Fail, ob 1 [Some 0; None; None; None] [1; 0])] = 2 /\
+  mon FBase true
+    [(MintSeq 0, Ok (Some 0), ob 1 [Some 0; None; None; None] [1; 0]);
+     (Transfer [1] 1 1 0, Ok None, ob 1 [Some 0; None; None; None] [1; 0])] = 2 /\
+  mon FCons false
+    [(BatchMint 0 3202, Ok (Some 3201), sob 3202 [(0, Some 0); (3199, Some 0); (3200, Some 0); (3201, Some 0); (3202, None)] [3202; 0]);
+     (Transfer [0] 0 1 3200, Ok None, sob 3202 [(0, Some 0); (3199, Some 1); (3200, Some 1); (3201, Some 0); (3202, None)] [3201; 1])] = 2 /\
+  mon FCons false
+    [(BatchMint 0 3202, Ok (Some 3201), sob 3202 [(0, Some 0); (3199, Some 0); (3200, Some 0); (3201, Some 0); (3202, None)] [3202; 0]);
+     (Transfer [0] 0 1 3200, Ok None, sob 3202 [(0, Some 0); (3199, Some 0); (3200, Some 1); (3201, Some 0); (3202, None)] [3201; 1])] = 0.
+Proof. vm_compute. repeat split. Qed.
